@@ -508,10 +508,11 @@ CHECKS = {
             {"module": "rueidis", "scenario": "cluster", "variant": "faults", "quick": 600, "thorough": 60000},
             {"module": "rueidis", "scenario": "sentinel-follow", "quick": 2000, "thorough": 150000},
             {"module": "rueidis", "scenario": "standalone-route", "quick": 2000, "thorough": 150000},
+            {"module": "rueidis", "scenario": "standalone-redirect", "quick": 2000, "thorough": 150000},
         ],
-        "expected_probes": ["command-sent-more-than-once", "retry-delay-said-stop", "loading-replies"],
+        "expected_probes": ["command-sent-more-than-once", "retry-delay-said-stop", "loading-replies", "traffic-on-redirect-target"],
         "components": {"real": REAL, "stubs": STUBS},
-        "assumptions": ["single-node and cluster front-ends (cluster part: a command is re-sent after LOADING/TRYAGAIN/CLUSTERDOWN or a transport error only if it is read-only or retryable, never with DisableRetry, and at most as often as RetryDelay returned a non-negative delay for it); sentinel and standalone parts: a command is sent again after a non-redirect answer only if it is read-only or retryable (a batch: all of them) and never with DisableRetry; the RetryDelay bookkeeping is judged on the single-node and cluster clients only"],
+        "assumptions": ["single-node and cluster front-ends (cluster part: a command is re-sent after LOADING/TRYAGAIN/CLUSTERDOWN or a transport error only if it is read-only or retryable, never with DisableRetry, and at most as often as RetryDelay returned a non-negative delay for it); sentinel and standalone parts: a command is sent again after a non-redirect answer only if it is read-only or retryable (a batch: all of them) and never with DisableRetry; the RetryDelay bookkeeping is judged on the single-node and cluster clients only; standalone-redirect: a standalone client with EnableRedirect whose primary is demoted in favour of its replica during the run (writes answered with -REDIRECT, the client builds a new primary client for the target), connection faults before and after the switch - the same attempt-log rules, a batch that is sent on because one member was redirected is not counted as a retry"],
     },
     "C26": {
         "level": "exploration",
